@@ -9,6 +9,7 @@ CONSTANTS
   ThinRes = 0
   FullDepth = 1
   SeedThin = 1
+  SeedThinFrom = 9
   SampleMod = 24
   SampleRes = 0
 INIT Init
